@@ -105,6 +105,17 @@ Proof.
   rewrite sqrt_mult; [|nra|apply vnorm2_nonneg]. rewrite sqrt_square by exact Hs. reflexivity.
 Qed.
 
+(* ------------------------------------------------------------------ matrices *)
+Notation RM := (@mat R).
+Lemma mvmul_vadd (m : RM) (a b : RV) : mvmul Rops m (vadd Rops a b) = vadd Rops (mvmul Rops m a) (mvmul Rops m b).
+Proof. destruct m as [[r1 r2] r3]. vd. unfold mvmul. vu. f_equal; [f_equal|]; ring. Qed.
+Lemma mvmul_vscale (m : RM) s (a : RV) : mvmul Rops m (vscale Rops s a) = vscale Rops s (mvmul Rops m a).
+Proof. destruct m as [[r1 r2] r3]. vd. unfold mvmul. vu. f_equal; [f_equal|]; ring. Qed.
+Lemma mvmul_0 (m : RM) : mvmul Rops m v0 = v0.
+Proof. destruct m as [[r1 r2] r3]. unfold v0. vd. unfold mvmul. vu. f_equal; [f_equal|]; ring. Qed.
+(* rotation matrices: R R^T = identity *)
+Definition orthogonal (m : RM) : Prop := forall v : RV, mvmul Rops m (mtvmul Rops m v) = v.
+
 (* ------------------------------------------------------------------ sums *)
 Lemma tsum_app (l r : list R) : tsum Rops (l ++ r) = tsum Rops l + tsum Rops r.
 Proof. unfold tsum. induction l as [|a l IH]; cbn [fold_right app]; [rs; ring|]. rewrite IH. rs. ring. Qed.
@@ -588,6 +599,71 @@ Section Components.
   Qed.
 End Components.
 
+(* ================================================================== rotated frames (rotation matrix = input, assumed orthogonal) *)
+Section Rotated.
+  Variable mass : nat -> R.
+  Variable pos : RF.
+  Local Notation ft := (cvc_ft Rops PI mass pos).
+  Local Notation app := (cvc_apply Rops PI mass pos).
+
+  Lemma frot_aapply (m : RM) ids gs fc b :
+    frot Rops m (aapply Rops ids gs fc) b = aapply Rops ids (map (mvmul Rops m) gs) fc b.
+  Proof.
+    unfold frot. revert gs; induction ids as [|a ids IH]; intros [|g gs]; cbn [aapply map]; try apply mvmul_0.
+    rewrite mvmul_vadd, IH. f_equal. destruct (Nat.eqb b a); [apply mvmul_vscale | apply mvmul_0].
+  Qed.
+  Lemma map_orthogonal (m : RM) (g : list RV) : orthogonal m -> map (mvmul Rops m) (map (mtvmul Rops m) g) = g.
+  Proof. intros H. rewrite map_map. rewrite <- (map_id g) at 2. apply map_ext. intros v. apply H. Qed.
+  Lemma rot_frame_length ids refs (m : RM) : length (rot_frame Rops pos ids refs m) = length ids.
+  Proof. unfold rot_frame. rewrite map_length. reflexivity. Qed.
+
+  Lemma inv_rmsd_rot ids refs rotf jdf fc : NoDup ids -> length refs = length ids -> orthogonal (rotf pos) ->
+    rmsdrot_value Rops pos ids refs (rotf pos) <> 0 ->
+    ft (CRmsdRot ids refs rotf jdf) (app (CRmsdRot ids refs rotf jdf) fc) = fc.
+  Proof.
+    intros Hn Hl Ho Hx. cbn [cvc_ft cvc_apply]. set (Rm := rotf pos) in *.
+    assert (Hne : ids <> []).
+    { intros ->. apply Hx. unfold rmsdrot_value, norm2_sum, rmsdrot_diff, rot_frame, tsum. cbn [map fold_right length vsub_list]; rs.
+      unfold Rdiv; rewrite Rmult_0_l; apply sqrt_0. }
+    assert (HN : 0 < ofnat Rops (length ids)) by (apply ofnat_pos; destruct ids; [contradiction|cbn; lia]).
+    set (D := rmsdrot_diff Rops pos ids refs Rm) in *.
+    assert (HD : length D = length ids).
+    { unfold D, rmsdrot_diff. rewrite vsub_list_length; rewrite rot_frame_length; [reflexivity|exact Hl]. }
+    assert (Hsq : rmsdrot_value Rops pos ids refs Rm * rmsdrot_value Rops pos ids refs Rm = norm2_sum Rops D / ofnat Rops (length ids)).
+    { unfold rmsdrot_value; rs. fold D. apply sqrt_sqrt. apply Rmult_le_pos; [apply norm2_sum_nonneg|].
+      apply Rlt_le, Rinv_0_lt_compat, HN. }
+    unfold rmsdrot_grads. fold D. set (x := rmsdrot_value Rops pos ids refs Rm) in *.
+    assert (Hxp : 0 < x).
+    { assert (0 <= x) by (unfold x, rmsdrot_value; rs; apply sqrt_pos). lra. }
+    rs. assert (Rltb 0 x = true) as -> by (apply Rltb_true; exact Hxp).
+    set (N := ofnat Rops (length ids)) in *. set (k := 1 / 2 / (x * N) * 2).
+    set (g := map (vscale Rops k) D).
+    assert (Hg : length g = length ids) by (unfold g; rewrite map_length; exact HD).
+    rewrite (adot_ext ids g _ (aapply Rops ids (map (mvmul Rops Rm) (map (mtvmul Rops Rm) g)) fc))
+      by (intros b _; apply frot_aapply).
+    rewrite map_orthogonal by exact Ho.
+    rewrite adot_aapply by assumption.
+    assert (Hgg : dot_list Rops g g = k * k * norm2_sum Rops D) by (unfold g; rewrite dot_list_scale, dot_list_self; reflexivity).
+    rewrite Hgg.
+    assert (HS : norm2_sum Rops D = N * (x * x)) by (rewrite Hsq; field; lra).
+    rewrite HS. unfold k. field. split; lra.
+  Qed.
+
+  Lemma inv_eigenvector_rot ids refs evec rotf jdf fc : NoDup ids -> length evec = length ids -> orthogonal (rotf pos) ->
+    norm2_sum Rops (eig_vec Rops evec) <> 0 ->
+    ft (CEigenvectorRot ids refs evec rotf jdf) (app (CEigenvectorRot ids refs evec rotf jdf) fc) = fc.
+  Proof.
+    intros Hn Hl Ho Hs. cbn [cvc_ft cvc_apply]. set (Rm := rotf pos) in *.
+    set (E := eig_vec Rops evec) in *.
+    assert (HE : length E = length ids) by (unfold E, eig_vec; rewrite map_length; exact Hl).
+    rewrite (adot_ext ids _ _ (aapply Rops ids (map (mvmul Rops Rm) (map (mtvmul Rops Rm) E)) fc))
+      by (intros b _; apply frot_aapply).
+    rewrite map_orthogonal by exact Ho.
+    rewrite adot_aapply by (try exact Hn; rewrite ?map_length; exact HE).
+    rewrite dot_list_scale_l, dot_list_self. unfold eig_invnorm2. fold E. rs. field. exact Hs.
+  Qed.
+End Rotated.
+
 (* ================================================================== linearity, locality, support: every component *)
 Section General.
   Variable mass : nat -> R.
@@ -598,7 +674,7 @@ Section General.
   Lemma cvc_ft_linear (c : RC) (F G : RF) a b :
     ft c (fadd Rops (fscale Rops a F) (fscale Rops b G)) = a * ft c F + b * ft c G.
   Proof.
-    destruct c as [g1 g2 os|gm gr gr2 axis os|gm gr gr2 axis os|g1 g2 g3 os|g1 g2 g3 g4 os|ids|ids refs c|ids refs evec c];
+    destruct c as [g1 g2 os|gm gr gr2 axis os|gm gr gr2 axis os|g1 g2 g3 os|g1 g2 g3 g4 os|ids|ids refs c|ids refs evec c|ids refs rotf jdf|ids refs evec rotf jdf];
       cbn [cvc_ft]; rewrite ?gforce_fadd, ?gforce_fscale, ?adot_fadd, ?adot_fscale.
     - set (u := vunit Rops _). set (x := gforce Rops F g1). set (y := gforce Rops G g1).
       set (x' := gforce Rops F g2). set (y' := gforce Rops G g2). destruct os; vd; vu; unfold Rdiv; ring.
@@ -617,6 +693,14 @@ Section General.
     - ring.
     - rs. ring.
     - ring.
+    - rewrite (adot_ext _ _ (frot Rops (rotf pos) (fadd Rops (fscale Rops a F) (fscale Rops b G)))
+                 (fadd Rops (fscale Rops a (frot Rops (rotf pos) F)) (fscale Rops b (frot Rops (rotf pos) G))))
+        by (intros x _; unfold frot, fadd, fscale; rewrite mvmul_vadd, !mvmul_vscale; reflexivity).
+      rewrite adot_fadd, !adot_fscale. rs. ring.
+    - rewrite (adot_ext _ _ (frot Rops (rotf pos) (fadd Rops (fscale Rops a F) (fscale Rops b G)))
+                 (fadd Rops (fscale Rops a (frot Rops (rotf pos) F)) (fscale Rops b (frot Rops (rotf pos) G))))
+        by (intros x _; unfold frot, fadd, fscale; rewrite mvmul_vadd, !mvmul_vscale; reflexivity).
+      rewrite adot_fadd, !adot_fscale. ring.
   Qed.
 
   Lemma cvc_ft_local (c : RC) (F G : RF) : (forall a, In a (cvc_atoms c) -> F a = G a) -> ft c F = ft c G.
@@ -624,7 +708,7 @@ Section General.
     intros H.
     assert (E : forall g, (forall a, In a (gids g) -> In a (cvc_atoms c)) -> gforce Rops F g = gforce Rops G g).
     { intros g Hg. apply gforce_ext. intros a Ha. apply H, Hg, Ha. }
-    destruct c as [g1 g2 os|gm gr gr2 axis os|gm gr gr2 axis os|g1 g2 g3 os|g1 g2 g3 g4 os|ids|ids refs c|ids refs evec c];
+    destruct c as [g1 g2 os|gm gr gr2 axis os|gm gr gr2 axis os|g1 g2 g3 os|g1 g2 g3 g4 os|ids|ids refs c|ids refs evec c|ids refs rotf jdf|ids refs evec rotf jdf];
       cbn [cvc_ft cvc_atoms] in *.
     - rewrite (E g1), (E g2) by (intros a Ha; rewrite ?in_app_iff; tauto). reflexivity.
     - rewrite (E gm), (E gr) by (intros a Ha; rewrite ?in_app_iff; tauto). reflexivity.
@@ -634,6 +718,8 @@ Section General.
     - apply adot_ext. exact H.
     - f_equal. apply adot_ext. exact H.
     - apply adot_ext. exact H.
+    - f_equal. apply adot_ext. intros x Hx. unfold frot. rewrite (H x Hx). reflexivity.
+    - apply adot_ext. intros x Hx. unfold frot. rewrite (H x Hx). reflexivity.
   Qed.
 
   (* sharper: only the atoms whose forces are read matter (oneSiteTotalForce: the first group only) *)
@@ -642,7 +728,7 @@ Section General.
     intros H.
     assert (E : forall g, (forall a, In a (gids g) -> In a (cvc_measured c)) -> gforce Rops F g = gforce Rops G g).
     { intros g Hg. apply gforce_ext. intros a Ha. apply H, Hg, Ha. }
-    destruct c as [g1 g2 os|gm gr gr2 axis os|gm gr gr2 axis os|g1 g2 g3 os|g1 g2 g3 g4 os|ids|ids refs c|ids refs evec c];
+    destruct c as [g1 g2 os|gm gr gr2 axis os|gm gr gr2 axis os|g1 g2 g3 os|g1 g2 g3 g4 os|ids|ids refs c|ids refs evec c|ids refs rotf jdf|ids refs evec rotf jdf];
       cbn [cvc_ft cvc_measured] in *.
     - destruct os; [rewrite (E g1) by (intros a Ha; exact Ha); reflexivity|].
       rewrite (E g1), (E g2) by (intros a Ha; rewrite ?in_app_iff; tauto). reflexivity.
@@ -659,6 +745,8 @@ Section General.
     - apply adot_ext. exact H.
     - f_equal. apply adot_ext. exact H.
     - apply adot_ext. exact H.
+    - f_equal. apply adot_ext. intros x Hx. unfold frot. rewrite (H x Hx). reflexivity.
+    - apply adot_ext. intros x Hx. unfold frot. rewrite (H x Hx). reflexivity.
   Qed.
 
   Lemma cvc_apply_support (c : RC) fc a : ~ In a (cvc_atoms c) -> app c fc a = v0.
@@ -666,7 +754,7 @@ Section General.
     intros H.
     assert (E : forall g v, (forall b, In b (gids g) -> In b (cvc_atoms c)) -> gapply Rops mass g v fc a = v0).
     { intros g v Hg. apply gapply_support. intros Ha. apply H, Hg, Ha. }
-    destruct c as [g1 g2 os|gm gr gr2 axis os|gm gr gr2 axis os|g1 g2 g3 os|g1 g2 g3 g4 os|ids|ids refs c|ids refs evec c];
+    destruct c as [g1 g2 os|gm gr gr2 axis os|gm gr gr2 axis os|g1 g2 g3 os|g1 g2 g3 g4 os|ids|ids refs c|ids refs evec c|ids refs rotf jdf|ids refs evec rotf jdf];
       cbn [cvc_apply cvc_atoms] in *.
     - unfold fadd. rewrite !E by (intros b Hb; rewrite ?in_app_iff; tauto). apply vadd_0_l.
     - destruct gr2 as [g2|]; unfold fadd; rewrite !E by (intros b Hb; rewrite ?in_app_iff; tauto); rewrite ?vadd_0_l; reflexivity.
@@ -677,6 +765,8 @@ Section General.
     - apply aapply_support. exact H.
     - unfold fadd. rewrite !aapply_support by exact H. apply vadd_0_l.
     - unfold fadd. rewrite !aapply_support by exact H. apply vadd_0_l.
+    - apply aapply_support. exact H.
+    - apply aapply_support. exact H.
   Qed.
 
   Lemma cvc_ft_ext (c : RC) (F G : RF) : (forall a, F a = G a) -> ft c F = ft c G.
